@@ -173,8 +173,9 @@ fn site_cases(tier: Tier) -> Vec<SiteCase> {
     ms.extend([126, 127, 128, 129, 130, 131, 132, 133]);
     if tier == Tier::Thorough {
         ms.extend(41..=125);
-        ms.extend(134..=400);
-        ms.extend([16382, 16383, 16384, 16385, 16386]);
+        ms.extend(134..=2000);
+        ms.extend(16370..=16400);
+        ms.extend(65530..=65545);
     }
     for m in ms {
         for site in 0..8u8 {
@@ -552,7 +553,7 @@ pub fn run(tier: Tier, caps: &Caps) -> Vec<FamilyReport> {
         "C14",
         sc.len() as u64,
         caps,
-        json!({"cases": sc.len(), "dimensions": "broker Maximum Packet Size 2..=40 and 126..=133 (thorough: 2..=400, 16382..16386) x {publish QoS 0/1/2, subscribe, unsubscribe} with sizes straddling the limit, disconnect(), disconnect with reason, disconnect with reason strings 0..6 and of lengths straddling the limit; each compared with an unlimited twin; followed by a resumed unlimited connection to expose anything retained"}),
+        json!({"cases": sc.len(), "dimensions": "broker Maximum Packet Size 2..=40 and 126..=133 (thorough: 2..=2000, 16370..=16400, 65530..=65545) x {publish QoS 0/1/2, subscribe, unsubscribe} with sizes straddling the limit, disconnect(), disconnect with reason, disconnect with reason strings 0..6 and of lengths straddling the limit; each compared with an unlimited twin; followed by a resumed unlimited connection to expose anything retained"}),
         &|i| eval_site(&sc[i as usize]),
         &|i| serde_json::to_value(&sc[i as usize]).unwrap(),
     ));
